@@ -4,6 +4,9 @@
 //! the in-memory pipe, cut at EVERY byte offset in either direction (EOF, reset, stall-then-EOF).
 //! Part B: a real client against the scripted peer, every kind of operation pending, and the peer
 //! closing / ending / detaching (with and without error) or the transport breaking under it.
+//! Parts G and H (c14_bp.rs): peer-initiated teardown while the library's own answer has to wait for room
+//! (small channel capacities, stalled writes), and a receiving link torn down with deliveries still buffered
+//! in front of the peer's detach.
 use crate::scen;
 use fe2o3_amqp::acceptor::{ConnectionAcceptor, LinkAcceptor, LinkEndpoint, SessionAcceptor};
 use fe2o3_amqp::link::receiver::CreditMode;
@@ -22,6 +25,9 @@ use vlib::explore::{explore, Bounds};
 use vlib::runner::{run_exec, RunCfg, Scenario};
 use vlib::util::{h64, par_map};
 use vlib::vpipe::{Fault, FaultMode, Pipe};
+
+#[path = "c14_bp.rs"]
+mod c14_bp;
 
 const OP_TIMEOUT: Duration = Duration::from_secs(120);
 
@@ -1585,6 +1591,8 @@ pub fn run(ctx: &Ctx) -> Outcome {
             }
         }
     }
+    // ---- Part G: peer-initiated teardown under back-pressure; Part H: receiver teardown with buffered deliveries
+    let (n_g, n_h) = parts_g_h(ctx, &mut out, &mut distinct, &mut samples);
     // ---- Part D: the same B and C cases under every task schedule / select order with at most one deviation
     // (thorough: two) from the default; quick keeps to the data-path cases of B and every 3rd case of C
     let deadline = std::time::Instant::now() + Duration::from_secs_f64((ctx.budget_s as f64 * 0.8).max(20.0));
@@ -1683,20 +1691,124 @@ pub fn run(ctx: &Ctx) -> Outcome {
     out.set("part_c_moments", c_points as u64);
     out.set("part_c_cases", casesc.len() as u64);
     out.set("part_c_injections_that_fired", c_fired);
-    out.set("evaluations", (casesb.len() + faults.len() + casesc.len()) as u64 + d_exec);
+    out.set("evaluations", (casesb.len() + faults.len() + casesc.len()) as u64 + d_exec + n_g + n_h);
     out.set("distinct_nontrivial", distinct.len() as u64);
     out.set("part_b_cases", casesb.len() as u64);
     out.set("part_b_cases_with_operation_really_pending", really_pending);
     out.set("part_a_cut_points", faults.len() as u64);
     out.set("part_a_cuts_that_fired", cut_hit);
     out.set("part_a_conversation_bytes", json!(base_obs.bytes));
-    out.set("rule", "Part A: reference conversation client<->listener (open, begin, attach sender+receiver, small / multi-frame / batchable sends, recv+accept, closes, end, close) cut at every byte offset of either direction x {EOF, reset, stall 30 s then EOF}. Part B: 9 kinds of operation in progress x 13 faults (peer close/end/detach with and without error, closing and non-closing, transport EOF/reset, close-with-error followed by reset or by a dropped connection whose shutdown fails), followed by a data-path and a teardown call on every handle. Part C: reference conversation client<->scripted peer; behind EVERY write call of the library (= every frame it sends) the peer sends close / end / closing or non-closing detach of either link, with and without error, wherever the protocol allows the peer to do so at that moment. Every public call runs under a 120 s virtual-time limit. distinct = distinct (fault class, per-operation result class) vectors");
+    out.set("rule", "Part A: reference conversation client<->listener (open, begin, attach sender+receiver, small / multi-frame / batchable sends, recv+accept, closes, end, close) cut at every byte offset of either direction x {EOF, reset, stall 30 s then EOF}. Part B: 9 kinds of operation in progress x 13 faults (peer close/end/detach with and without error, closing and non-closing, transport EOF/reset, close-with-error followed by reset or by a dropped connection whose shutdown fails), followed by a data-path and a teardown call on every handle. Part C: reference conversation client<->scripted peer; behind EVERY write call of the library (= every frame it sends) the peer sends close / end / closing or non-closing detach of either link, with and without error, wherever the protocol allows the peer to do so at that moment. Part G (back-pressure): connection buffer x session buffer in {1,2} (thorough {1,2,3}), the transport takes no more bytes, 8 deliveries of a second session queued so that the session->connection channel is full and the library's own answer has to wait for room; the peer ends session A (with / without error, or with error and a close right behind), closes a link of A with error, or closes the connection with error; x operation {send on the affected link, send on a sibling link, recv, attach, begin} x issued {under the back-pressure before the peer's frame (with a second send of session A in flight), while the answer waits, at the very instant the peer's frame arrives, after the transport has been released}; then follow-up data-path and teardown calls on every handle. Part H: receiving link with N in {0,1,3} (thorough {0,1,2,3,5,8}) deliveries the application has not taken in front of the peer's detach {closing, non-closing} x {error, none} x {detach(), close(), recv() until it fails then detach(), accept() of an earlier delivery then detach()} with the peer's detach before the call, and detach()/close() with the peer's detach sent in answer to the call's own detach. Every public call runs under a 120 s virtual-time limit. distinct = distinct (fault class, per-operation result class) vectors");
     out.set("samples", json!(samples));
     out.set("exhaustive", d_complete);
-    out.set("bound", format!("part A byte step {step}; part B full product"));
+    out.set("bound", format!("part A byte step {step}; part B full product; parts G and H full product of the stated dimensions ({} + {} cases), default schedule", n_g, n_h));
+    out.assume("part G: 'the answer waits for room' is established by the wire order after the release (the answer comes out behind at least connection-buffer + 2 frames of the other session); cases where it did not wait are still judged but counted separately (part_g_answers_that_really_waited_for_room)");
+    out.assume("parts G/H: a disposition (accept) issued after the peer's detach has ARRIVED at the link counts as 'issued afterwards' and has to fail; a teardown call that is the first call to observe a detach of the peer carrying an error has to report that error");
     out.assume("a call counts as hanging if it has not completed after 120 s of virtual time with the peer answering everything it is asked");
     out.assume("'errors say whether the link, the session or the connection stopped': judged on the Debug rendering of the error of the first data-path call on the affected handle (must mention the stopped scope and, when the peer supplied one, its condition)");
     out
+}
+
+fn parts_g_h(ctx: &Ctx, out: &mut Outcome, distinct: &mut std::collections::HashSet<u64>, samples: &mut Vec<serde_json::Value>) -> (u64, u64) {
+    use c14_bp::*;
+    let class = |r: &str| r.split('(').next().unwrap_or("").to_string();
+    let cpu = std::sync::atomic::AtomicU64::new(0);
+    let t0 = std::time::Instant::now();
+    // ---- G
+    let casesg = g_cases(ctx.quick());
+    let resg = par_map(&casesg, ctx.threads, |_, c| {
+        let c = *c;
+        let scen: Scenario<GObs> = Arc::new(move || Box::pin(scenario_g(c)));
+        let ex = run_exec(vec![], &RunCfg::none(), &scen);
+        cpu.fetch_add((ex.cpu_ms * 1000.0) as u64, std::sync::atomic::Ordering::Relaxed);
+        (ex.out, ex.panics, ex.spun, ex.watchdog)
+    });
+    let mut waited: std::collections::BTreeMap<String, u64> = Default::default();
+    let mut done_while_stalled = 0u64;
+    for (c, (o, panics, spun, wd)) in casesg.iter().zip(resg) {
+        let rj = g_case_json(c);
+        if spun {
+            out.violation(format!("spin under back-pressure fault={:?}", c.flt), format!("{:?}: busy loop", c), rj.clone());
+        }
+        match o {
+            None => {
+                if wd {
+                    out.violation(format!("real-time-hang under back-pressure fault={:?}", c.flt), format!("{:?}: the execution did not finish in real time", c), rj.clone());
+                } else {
+                    out.machinery_errors.push(format!("part G scenario died: {:?}: {:?}", c, panics));
+                }
+            }
+            Some(o) => {
+                if let Some(m) = &o.machinery {
+                    out.machinery_errors.push(m.clone());
+                    continue;
+                }
+                if o.answer_waited {
+                    *waited.entry(format!("{:?} / operation issued {:?}", c.flt, c.when)).or_insert(0) += 1;
+                }
+                if o.op_done_while_stalled {
+                    done_while_stalled += 1;
+                }
+                distinct.insert(h64(&("G", c.flt, c.op, c.when, class(&o.op_result), o.inflight.as_ref().map(|(_, r)| class(r)), class(&o.bulk_result), o.followups.iter().map(|(n, r)| (n.clone(), class(r))).collect::<Vec<_>>())));
+                if samples.len() < 5 && c.when == c14_bp::GWhen::WhileStuck && o.answer_waited && c.op == c14_bp::GOp::SendAffected {
+                    samples.push(json!({"case": rj, "operation": o.op_result, "other_session_delivery": o.bulk_result, "followups": o.followups, "trace_since_the_stall": o.trace}));
+                }
+                for (s, d) in judge_g(c, &o, &panics) {
+                    out.violation(s, d, rj.clone());
+                }
+            }
+        }
+    }
+    out.set("part_g_cases", casesg.len() as u64);
+    out.set("part_g_answers_that_really_waited_for_room", json!(waited));
+    out.set("part_g_operations_completed_while_still_stalled", done_while_stalled);
+    // ---- H
+    let casesh = h_cases(ctx.quick());
+    let resh = par_map(&casesh, ctx.threads, |_, c| {
+        let c = *c;
+        let scen: Scenario<HObs> = Arc::new(move || Box::pin(scenario_h(c)));
+        let ex = run_exec(vec![], &RunCfg::none(), &scen);
+        cpu.fetch_add((ex.cpu_ms * 1000.0) as u64, std::sync::atomic::Ordering::Relaxed);
+        (ex.out, ex.panics, ex.spun, ex.watchdog)
+    });
+    let mut buffered_cases = 0u64;
+    for (c, (o, panics, spun, wd)) in casesh.iter().zip(resh) {
+        let rj = h_case_json(c);
+        if spun {
+            out.violation(format!("spin receiver-teardown peer-detach={:?}", c.kind), format!("{:?}: busy loop", c), rj.clone());
+        }
+        match o {
+            None => {
+                if wd {
+                    out.violation(format!("real-time-hang receiver-teardown peer-detach={:?}", c.kind), format!("{:?}: the execution did not finish in real time", c), rj.clone());
+                } else {
+                    out.machinery_errors.push(format!("part H scenario died: {:?}: {:?}", c, panics));
+                }
+            }
+            Some(o) => {
+                if let Some(m) = &o.machinery {
+                    out.machinery_errors.push(m.clone());
+                    continue;
+                }
+                if o.buffered_really != c.n {
+                    out.machinery_errors.push(format!("part H {:?}: {} deliveries buffered instead of {}", c, o.buffered_really, c.n));
+                    continue;
+                }
+                if c.n > 0 {
+                    buffered_cases += 1;
+                }
+                distinct.insert(h64(&("H", *c, o.recvs.iter().map(|r| class(r)).collect::<Vec<_>>(), o.accept.as_ref().map(|r| class(r)), class(&o.teardown))));
+                for (s, d) in judge_h(c, &o, &panics) {
+                    out.violation(s, d, rj.clone());
+                }
+            }
+        }
+    }
+    out.set("part_h_cases", casesh.len() as u64);
+    out.set("part_h_cases_with_deliveries_really_buffered", buffered_cases);
+    out.set("parts_g_h_cpu_seconds_all_threads", (cpu.load(std::sync::atomic::Ordering::Relaxed) as f64 / 1e6 * 100.0).round() / 100.0);
+    out.set("parts_g_h_wall_seconds", (t0.elapsed().as_secs_f64() * 100.0).round() / 100.0);
+    (casesg.len() as u64, casesh.len() as u64)
 }
 
 fn replay(p: &std::path::Path, mut out: Outcome) -> Outcome {
@@ -1716,6 +1828,40 @@ fn replay(p: &std::path::Path, mut out: Outcome) -> Outcome {
             for (s, d) in judge_b(pd, flt, &o, &ex.panics) {
                 println!("  FAIL {s}: {d}");
                 out.violation(s, d, r.clone());
+            }
+        }
+    } else if r["part"] == "G" {
+        if let Some(c) = c14_bp::g_case_from_json(r) {
+            let scen: Scenario<c14_bp::GObs> = Arc::new(move || Box::pin(c14_bp::scenario_g(c)));
+            let ex = run_exec(vec![], &RunCfg::none(), &scen);
+            if let Some(o) = ex.out {
+                for l in &o.trace {
+                    println!("  {l}");
+                }
+                println!("  operation -> {} (done while stalled: {}); in flight {:?}; other session's delivery -> {}\n  followups {:?}\n  frames of the other session before the answer {}; answer waited for room {}; alive {}; machinery {:?}", o.op_result, o.op_done_while_stalled, o.inflight, o.bulk_result, o.followups, o.b_frames_before_answer, o.answer_waited, o.alive_tasks_end, o.machinery);
+                for (s, d) in c14_bp::judge_g(&c, &o, &ex.panics) {
+                    println!("  FAIL {s}");
+                    out.violation(s, d, r.clone());
+                }
+            } else {
+                println!("  the scenario died: {:?}", ex.panics);
+            }
+        }
+    } else if r["part"] == "H" {
+        if let Some(c) = c14_bp::h_case_from_json(r) {
+            let scen: Scenario<c14_bp::HObs> = Arc::new(move || Box::pin(c14_bp::scenario_h(c)));
+            let ex = run_exec(vec![], &RunCfg::none(), &scen);
+            if let Some(o) = ex.out {
+                for l in &o.trace {
+                    println!("  {l}");
+                }
+                println!("  recv -> {:?}; accept -> {:?}; teardown -> {}; followups {:?}; alive {}; machinery {:?}", o.recvs, o.accept, o.teardown, o.followups, o.alive_tasks_end, o.machinery);
+                for (s, d) in c14_bp::judge_h(&c, &o, &ex.panics) {
+                    println!("  FAIL {s}");
+                    out.violation(s, d, r.clone());
+                }
+            } else {
+                println!("  the scenario died: {:?}", ex.panics);
             }
         }
     } else if r["part"] == "C" {
